@@ -121,17 +121,12 @@ Qed.
                   (<-ctx.Done(), <-r.stctx.Done(), <-cg.done, <-gen.done) is ready too
      progress s l = none of the three: a step a goroutine, the broker or a one-shot timer takes
 
-   FINDINGS of this half (each a [_refuted] theorem below, replayed on the implementation by
-   harness/cmd/c09r, reported by checks/c09.py):
-     C09-commit-after-close-enqueues   CommitMessages after Close returned can put its request into
-        r.commits (the select has no priority for <-r.stctx.Done()); with CommitInterval = 0 the
-        call then waits for an answer nobody will send until ITS context ends (forever with
-        context.Background()); with CommitInterval > 0 it returns nil for a commit that is never sent.
-     C09-fetch-after-close-buffered    FetchMessage / ReadMessage after Close returned deliver the
-        messages (and error items) still buffered in r.msgs before they return io.EOF; in group
-        mode ReadMessage then fails in its CommitMessages (io.ErrClosedPipe) and the message is lost.
-     C09-no-leave-after-failed-rejoin  joinGroup returns "" as member id on every error, so after a
-        failed re-join the id handed out earlier is forgotten and Close sends no LeaveGroup for it.
+   Three former defects of this half are fixed in /repo and the model mirrors the fixed code
+   (their schedules are kept as regressions, C09_r_regressions, and replayed on the implementation
+   by ops det / cac / nlv of harness/cmd/c09r):
+     43be141  FetchMessage returns io.EOF as soon as r.closed is set (buffered messages are dropped)
+     0aeb2fd  CommitMessages checks r.stctx first (non-blocking) and also while waiting for the result
+     da142dd  joinGroup keeps the member id on every error, so run leaves the group with it
    ====================================================================================== *)
 From KV Require Import Model.Lifecycle Proofs.LifecycleBase Proofs.LifecycleSafe Proofs.LifecycleGen
   Proofs.LifecyclePost Proofs.LifecycleCalls Proofs.LifecycleLive Proofs.LifecycleVariant.
@@ -155,45 +150,35 @@ Theorem C09_ctx_already_ended : forall s c k, panicked s = false ->
 Proof. exact ctx_already_proof. Qed.
 Print Assumptions C09_ctx_already_ended.
 
-(* ---- C09_r_after_close.  Full statement (property text: "after Close … FetchMessage/ReadMessage
-   return io.EOF", CommitMessages io.ErrClosedPipe): every call that BEGAN after a Close call had
-   returned gets io.EOF (fetch, read) / io.ErrClosedPipe (commit), or its context's error if that
-   context had already ended when the call began.  REFUTED in both clauses; what does hold is
-   C09_r_after_close_partial. ---- *)
-Definition C09_r_after_close_full_statement : Prop :=
-  forall c ls s, run step (init c) ls = Some s -> mon_after_close (hist s) = true.
+(* ---- C09_r_after_close, full strength.  In every run, every call that BEGAN after some Close
+   call had returned ([call_info i (hist s)] = (kind, true, _)):
+   * its return event is io.EOF for FetchMessage, for ReadMessage the error
+     fmt.Errorf("fetching message: %w", io.EOF) (result class REOF = errors.Is(err, io.EOF)), and
+     io.ErrClosedPipe for CommitMessages of a group Reader (without a GroupID CommitMessages returns
+     errOnlyAvailableWithGroup before and after Close: class ROther) — first conjunct, the monitor
+     [mon_after_close] that is also run on the implementation's timelines;
+   * while it exists it is never blocked in a select, never at the select that enqueues into
+     r.commits (so nothing is enqueued), never delivers a message: it is at the head of
+     FetchMessage's loop, at CommitMessages' non-blocking closed check, or has returned; and from
+     those two points the ONLY step of the call is the return with io.EOF / io.ErrClosedPipe, which
+     is enabled (no wait, not even for its context). ---- *)
+Theorem C09_r_after_close : forall c ls s, run step (init c) ls = Some s ->
+  mon_after_close (c_group c) (hist s) = true /\
+  (forall i k late pre, nth_error (calls s) i = Some k -> call_info i (hist s) = Some (k_kind k, late, pre) ->
+     late = true -> k_kind k <> KTrip ->
+     blocked (k_ph k) = false /\ k_ph k <> PCSelect /\
+     (k_ph k = PFLock \/ k_ph k = PCCheck \/ exists r, k_ph k = PDone r) /\
+     (k_ph k = PFLock -> step s (LFLock i) = Some (ret i k REOF s)) /\
+     (k_ph k = PCCheck -> step s (LCCheck i) = Some (ret i k RClosedPipe s))).
+Proof. exact after_close_full_proof. Qed.
+Print Assumptions C09_r_after_close.
 
-(* witness (partition mode): one batch of 2 messages reaches r.msgs, one is fetched, Close runs to
-   completion (the partition reader exits, r.msgs is closed), a new FetchMessage returns the
-   buffered message instead of io.EOF *)
-Theorem C09_r_after_close_fetch_refuted :
-  exists s, run step (init (cfg_p 4)) wit_fetch_buffered = Some s /\
-    close_returned s = true /\ map k_ph (calls s) = [PDone RMsg; PDone RMsg] /\
-    mon_late_fetch (hist s) = false /\ mon_after_close (hist s) = false.
-Proof. exact after_close_fetch_refuted_proof. Qed.
-Print Assumptions C09_r_after_close_fetch_refuted.
-
-(* witness (group mode): the member joins, Close runs to completion (run loop, ConsumerGroup,
-   heartbeat all gone: live s = 0, LeaveGroup sent), a new CommitMessages takes the
-   r.commits <- creq branch; synchronous commits: it then waits until its own context ends (RCtx
-   — nobody reads r.commits any more); CommitInterval > 0: it returns nil *)
-Theorem C09_r_after_close_commit_refuted :
-  (exists s, run step (init (cfg_g true 4)) wit_commit_enqueued = Some s /\
-     close_returned s = true /\ map k_ph (calls s) = [PDone RCtx] /\ commits s = [0] /\
-     live s = 0 /\ mon_late_commit (hist s) = false /\ mon_after_close (hist s) = false) /\
-  (exists s, run step (init (cfg_g false 4)) wit_commit_async = Some s /\
-     close_returned s = true /\ map k_ph (calls s) = [PDone RNil] /\ commits s = [0] /\
-     live s = 0 /\ mon_late_commit (hist s) = false).
-Proof. exact after_close_commit_refuted_proof. Qed.
-Print Assumptions C09_r_after_close_commit_refuted.
-
-(* what holds after a Close call returned, in every run: the Reader is marked closed, r.stctx is
-   cancelled, every partition reader has exited (nothing is ever added to r.msgs again: its length
-   never grows), r.runError can no longer fire; a FetchMessage in its select returns io.EOF as soon
-   as the queue is empty and closed; for a CommitMessages in its first select the io.ErrClosedPipe
-   branch is ready — the only alternative is the enqueue, impossible when r.commits is full.
-   Missing for the full statement: see the two refutations. *)
-Theorem C09_r_after_close_partial : forall c ls s, run step (init c) ls = Some s -> close_returned s = true ->
+(* the state once a Close call has returned, also for the calls that were already in flight: the
+   Reader is marked closed, r.stctx is cancelled, every partition reader has exited (r.msgs never
+   grows again), r.runError can no longer fire; a FetchMessage still in its select returns io.EOF
+   once the queue is empty and closed; for a CommitMessages in a select the io.ErrClosedPipe
+   branch is ready *)
+Theorem C09_r_after_close_state : forall c ls s, run step (init c) ls = Some s -> close_returned s = true ->
   closed s = true /\ stctx s = true /\ all_exited s = true /\
   (forall l s', step s l = Some s' -> length (msgs s') <= length (msgs s)) /\
   (forall i, step s (LFRunErr i) = None) /\
@@ -201,8 +186,8 @@ Theorem C09_r_after_close_partial : forall c ls s, run step (init c) ls = Some s
      step s (LFEof i) = Some (ret i k REOF s)) /\
   (forall i k, nth_error (calls s) i = Some k -> k_ph k = PCSelect ->
      step s (LCClosed i) = Some (ret i k RClosedPipe s) /\ (croom s = false -> step s (LCEnq i) = None)).
-Proof. exact after_close_partial_proof. Qed.
-Print Assumptions C09_r_after_close_partial.
+Proof. exact after_close_state_proof. Qed.
+Print Assumptions C09_r_after_close_state.
 
 (* ---- C09_r_close_no_stuck: in every reachable state in which a Close call waits (r.join.Wait()
    or <-r.done) some goroutine has an enabled PROGRESS step: the Close call itself, a partition
@@ -222,19 +207,21 @@ Theorem C09_r_close_begins : forall c ls s, run step (init c) ls = Some s ->
 Proof. exact close_begins_proof. Qed.
 Print Assumptions C09_r_close_begins.
 
-(* ---- C09_r_close_variant.  Full statement of the design: a measure that strictly decreases on
-   EVERY non-environment step after Close started.  That is false for this code: a heartbeat tick
-   answered OK leaves the control state unchanged for as long as the generation lives, and a
-   select may keep taking a ready non-cancellation branch (cg.Next handing out generation after
-   generation although r.stctx is cancelled).  Proved instead, for EVERY state (reachable or not)
-   in which r.stop() has been executed: every PROGRESS step strictly decreases the measure [mu]
-   (Proofs/LifecycleVariant.v: weighted sum of the remaining control points of every Close call,
-   partition reader, caller, Reader.run, ConsumerGroup.run, generation function, readLag goroutine,
-   plus 2 per queued message and 9 per queued commit request), and [stopping] is stable.  With
-   C09_r_close_no_stuck / C09_r_close_begins: in every run in which progress steps are taken
-   whenever enabled (weak fairness), ticks are finite per unit of time (they are clock driven)
-   and a select with a ready cancellation branch eventually takes it (Go chooses uniformly at
-   random), every Close call returns.  Wall-clock bounds are outside the model. ---- *)
+(* ---- C09_r_close_variant.  The statement of the design — a measure that strictly decreases on
+   EVERY non-environment step after Close started — is kept below as a Definition; it is NOT a
+   property of this (or any reasonable) implementation, so the partiality is inherent and not a
+   gap of the proof: a heartbeat tick answered OK leaves the control state unchanged for as long
+   as the generation lives (periodic tickers are meant to recur), and Go's select chooses
+   uniformly among ready branches, so e.g. cg.Next may hand out one more generation although
+   r.stctx is already cancelled (probability 1/2 each time, never forever).  Proved, for EVERY state
+   (reachable or not) in which r.stop() has been executed: every PROGRESS step strictly decreases
+   the measure [mu] (Proofs/LifecycleVariant.v: weighted sum of the remaining control points of
+   every Close call, partition reader, caller, Reader.run, ConsumerGroup.run, generation function,
+   readLag goroutine, plus 2 per queued message and 9 per queued commit request), and [stopping]
+   is stable.  With C09_r_close_no_stuck / C09_r_close_begins: in every run in which progress steps
+   are taken whenever enabled (weak fairness), ticks are finite per unit of time (clock driven)
+   and a select with a ready cancellation branch eventually takes it, every Close call returns.
+   Wall-clock bounds are outside the model. ---- *)
 Definition C09_r_close_variant_full_statement : Prop :=
   exists m : state -> nat, forall c ls s l s', run step (init c) ls = Some s -> closed s = true ->
     is_env l = false -> step s l = Some s' -> m s' < m s.
@@ -251,24 +238,14 @@ Theorem C09_r_close_post_silent : forall c ls s, run step (init c) ls = Some s -
 Proof. exact silent_holds. Qed.
 Print Assumptions C09_r_close_post_silent.
 
-(* (2) leave: at every Close return the membership the coordinator knows of has been the subject
-       of a LeaveGroup attempt (request sent, or the coordinator could not be reached for it) —
-       where, as in C15, a later JoinGroup REQUEST of this member counts as giving the id up … *)
+(* (2) leave, strict: at every Close return, the member id the coordinator handed out last
+       ([EJoined m], however many JoinGroup requests — successful or failed — followed) has been the
+       subject of a LeaveGroup attempt since: the request was sent ([EReq ALeave m]) or the
+       coordinator could not be reached for it ([ELeaveUnreach m]).  [mstat h] = that member id if
+       no such attempt followed it, else 0. *)
 Theorem C09_r_close_post_leave : forall c ls s, run step (init c) ls = Some s -> mon_leave (hist s) = true.
 Proof. exact leave_holds. Qed.
 Print Assumptions C09_r_close_post_leave.
-
-(*     … which is exactly where the code falls short of "leaves the group it had joined": after a
-       failed re-join (any error but the id is kept by the coordinator, e.g. codes 15/16) Close
-       sends no LeaveGroup for the member id handed out before.  Strict statement refuted: *)
-Definition C09_r_close_post_leave_full_statement : Prop :=
-  forall c ls s, run step (init c) ls = Some s -> mon_leave_strict (hist s) = true.
-Theorem C09_r_close_post_leave_strict_refuted :
-  exists s, run step (init (cfg_g true 4)) wit_no_leave = Some s /\ close_returned s = true /\
-    live s = 0 /\ mon_leave (hist s) = true /\ mon_leave_strict (hist s) = false /\
-    In (EJoined 1) (hist s) /\ ~ In (EReq ALeave 1) (hist s).
-Proof. exact leave_strict_refuted_proof. Qed.
-Print Assumptions C09_r_close_post_leave_strict_refuted.
 
 (* (3) registry: every goroutine Close accounts for (partition readers, Reader.run,
        ConsumerGroup.run, every ACCOUNTED generation function: heartbeat, commitLoop, unsubscribe
@@ -301,14 +278,28 @@ Theorem C09_r_close_post_msgs_once : forall c ls s, run step (init c) ls = Some 
 Proof. exact close_post_msgs. Qed.
 Print Assumptions C09_r_close_post_msgs_once.
 
+(* ---- regressions of the three former defects (schedules in Model/Lifecycle.v): a FetchMessage
+   after Close with a message still buffered returns io.EOF and leaves the buffer alone; a
+   CommitMessages after Close returns io.ErrClosedPipe and r.commits stays empty; after a failed
+   re-join the member id is kept, LeaveGroup is sent for it and only then is it cleared. ---- *)
+Theorem C09_r_regressions :
+  (exists s, run step (init (cfg_p 4)) wit_fetch_buffered = Some s /\ close_returned s = true /\
+     map k_ph (calls s) = [PDone RMsg; PDone REOF] /\ msgs s = [1] /\ C09R_holds false (hist s) = true) /\
+  (exists s, run step (init (cfg_g true 4)) wit_commit_enqueued = Some s /\ close_returned s = true /\
+     map k_ph (calls s) = [PDone RClosedPipe] /\ commits s = [] /\ live s = 0 /\ C09R_holds true (hist s) = true) /\
+  (exists s, run step (init (cfg_g true 4)) wit_no_leave = Some s /\ close_returned s = true /\ live s = 0 /\
+     C09R_holds true (hist s) = true /\ In (EJoined 1) (hist s) /\ In (EReq ALeave 1) (hist s) /\ mid s = None).
+Proof. exact after_close_regressions_proof. Qed.
+Print Assumptions C09_r_regressions.
+
 (* ---- non-vacuity: group Reader, synchronous commits, ReadLag off: join, generation handed to
-   Reader.run, one partition reader with a batch of 2, ReadMessage (fetch + commit acknowledged),
+   Reader.run, one partition reader with a batch of 1, ReadMessage (fetch + commit acknowledged),
    a FetchMessage blocked on the empty queue, a heartbeat, TWO concurrent Close calls; the blocked
    call gets io.EOF, LeaveGroup is sent, everything is gone, a late FetchMessage gets io.EOF. ---- *)
 Definition exr_run : list label :=
   join_ok ++ [LRNextCall; LRNextGen; LRSub 1; LRStartC; LRStartU;
    LFDial 0 DOk; LFOffsets 0 DOk; LFFetch 0; LFResp 0 (FData 1); LFPush 0; LFBatchEnd 0 false;
-   LCall KRead; LFLock 0; LFRecv 0; LCEnq 0; LClTake 1; LClCommit 1 true; LCReply 0;
+   LCall KRead; LFLock 0; LFRecv 0; LCCheck 0; LCEnq 0; LClTake 1; LClCommit 1 true; LCReply 0;
    LCall KFetch; LFLock 1; LHbTick 0 true;
    LCloseCall; LCloseCall; LCloseStep 0; LCloseStep 1; LCloseStep 0; LCloseStep 0; LCloseStep 1; LCloseStep 1;
    LFSeeCancel 0; LCloseStep 0; LCloseStep 1;
@@ -316,13 +307,13 @@ Definition exr_run : list label :=
    LFnSeeDone 0; LFnHandler 0; LFnSeeDone 1; LFnHandler 1; LFnSeeDone 2; LUnCancel 2; LUnJoin 2; LFnHandler 2;
    LGJoined; LGLeaveCoord true; LGLeaveReq; LRCgWait; LRDone;
    LCloseStep 1; LCloseStep 1; LCloseStep 0; LCloseStep 0; LFEof 1;
-   LCall KFetch; LFLock 2; LFEof 2].
+   LCall KFetch; LFLock 2].
 Example C09_r_nonvacuous :
   option_map (fun s => (map k_ph (calls s), closers s, live s, conns s, msgs_closes (hist s),
-                        C09R_holds (hist s), mon_leave_strict (hist s),
+                        C09R_holds true (hist s),
                         existsb (fun e => match e with EReq ALeave 1 => true | _ => false end) (hist s),
                         existsb (fun e => match e with EReq AHb 1 => true | _ => false end) (hist s),
                         existsb (fun e => match e with EReq ACommit 1 => true | _ => false end) (hist s)))
              (run step (init (cfg_g true 4)) exr_run)
-  = Some ([PDone RMsg; PDone REOF; PDone REOF], [CLRet; CLRet], 0, 0, 1, true, true, true, true, true).
+  = Some ([PDone RMsg; PDone REOF; PDone REOF], [CLRet; CLRet], 0, 0, 1, true, true, true, true).
 Proof. vm_compute. reflexivity. Qed.
